@@ -437,6 +437,11 @@ func (env *ExecEnv) expandParam(fields []*field, pe *ast.ParamExp, mode ExpMode)
 	}
 	return fields, nil
 Param:
+	if pe.Name.Value == "*" && !quote && len(env.Args) > 2 {
+		// one field per positional parameter
+		a = make([]string, len(env.Args)-1)
+		copy(a, env.Args[1:])
+	}
 	for i, s := range a {
 		if i > 0 {
 			fields = append(fields, new(field))
